@@ -187,7 +187,12 @@ def acceptor(chk, prog, cfg):
         ok = falsy(r) and sc.log[:1] == [("is_ascii", S("s"))] and len(sc.log) == 1
         chk.expect(ok, "R18.1a", "is_rust_identifier:non-ascii-rejected-first", W(), "non-ASCII input -> %r after %s" % (r, [x[0] for x in sc.log]), cfg)
     except absint.Unrecognised as e:
-        chk.unrecognised("R18.1a", "is_rust_identifier:non-ascii-rejected-first", W(), "cannot interpret: %s" % e, cfg)
+        if not b.calls_to("is_ascii") and b.calls_to("as_bytes"):
+            # no up-front scan: the function classifies bytes, and every byte of a non-ASCII character is >= 0x80 -- R18.1c decides all 256 byte
+            # values for the head and for the tail class, so such input is rejected there
+            chk.ok("R18.1a", "is_rust_identifier:non-ascii-rejected-first", W(), "no is_ascii scan; bytes >= 0x80 are outside the head and tail classes (R18.1c, all 256 values)", cfg)
+        else:
+            chk.unrecognised("R18.1a", "is_rust_identifier:non-ascii-rejected-first", W(), "cannot interpret: %s" % e, cfg)
     # (b) the raw prefix is removed at most once: what is classified is `rest` when strip_prefix("r#") matched, `s` itself otherwise
     try:
         seen = {}
@@ -331,8 +336,35 @@ def from_segments(chk, prog, cfg):
         if not derived and fn.get("kind") == "Closure":
             root = prog.fns.get(fn.get("root"), {})
             derived = any(e.get("kind") == "Derive" for e in (root.get("expn") or []))
-        chk.expect(p in allowed or derived, "R18.2", "Path-built-in:" + p.split("::{closure")[0], bb_.where(blk),
-                   "Path{..} constructed in %s" % p, cfg)
+        ok_ = p in allowed or derived
+        detail_ = "Path{..} constructed in %s" % p
+        if not ok_ and p == "scale_info::ty::path::Path::prelude":
+            # a constructor that validates by itself: judged by R18.3 (valid -> exactly [ident], invalid -> panic, is_rust_identifier consulted on the ident)
+            ok_, detail_ = _prelude_direct(prog)
+        chk.expect(ok_, "R18.2", "Path-built-in:" + p.split("::{closure")[0], bb_.where(blk), detail_, cfg)
+
+
+def _prelude_direct(prog):
+    """Path::prelude building the value itself: Path{segments: [ident]} when is_rust_identifier(ident), a panic otherwise"""
+    S = absint.Sym
+    ps = [p for p in prog.fns if mir.strip_generics(p) == "scale_info::ty::path::Path::prelude"]
+    if len(ps) != 1:
+        return False, "anchor"
+    try:
+        r = PathRun(prog, {"valid": True})
+        v = r.run(ps[0], [S("IDENT")])
+        segs = symrun.field(v, "segments") if symrun.is_struct(v, "scale_info::ty::path::Path") else None
+        ids = [x for x in r.log if x[0] == "is_rust_identifier"]
+        ok = segs is not None and _h(segs) in (_h(("vec", (S("IDENT"),))), _h(("array", [S("IDENT")]))) and ids == [("is_rust_identifier", S("IDENT"))]
+        detail = "valid ident -> %s after %s" % (symrun.show(v), [x[0] for x in r.log])
+    except absint.Unrecognised as e:
+        return False, "cannot interpret the valid case: %s" % e
+    try:
+        r2 = PathRun(prog, {"valid": False})
+        v2 = r2.run(ps[0], [S("IDENT")])
+        return False, detail + "; invalid ident -> returns %s (must panic)" % symrun.show(v2)
+    except absint.Unrecognised as e:
+        return ok and "PANIC" in str(e), detail + "; invalid ident -> %s" % e
 
 
 def _is(v, name):
@@ -358,27 +390,36 @@ class PathRun(symrun.Run):
         if sp == "core::iter::sources::once::once" and len(args) == 1:
             return ("once", args[0])
         if last == "chain" and len(args) == 2:
-            return ("chain", args[0], args[1])
+            b_ = args[1]
+            if isinstance(b_, tuple) and b_[:1] in (("array",), ("vec",), ("tuple",)) and len(b_[1]) == 1:
+                b_ = ("once", b_[1][0])      # `.chain([x])` is `.chain(once(x))`
+            return ("chain", args[0], b_)
         if last == "map" and "iterator::Iterator" in sp and len(args) == 2:
             f = args[1]
-            if isinstance(f, tuple) and f[:1] == ("closure",):
-                outs = set()
-                for found in (False, True):
-                    self.scen["found"] = found
-                    outs.add(_h(absint.call_closure(prog, f, [S("seg")], self.handler, 1, True)))
-                self.scen.pop("found", None)
-                if outs == {_h(S("seg"))}:
+            if isinstance(f, tuple) and f[:1] in (("closure",), ("fnitem",)):
+                outs = {}
+                for m in ((), (0,), (1,), (0, 1)):
+                    self.scen["match"] = set(m)
+                    try:
+                        outs[m] = _h(absint.call_closure(prog, f, [S("seg")], self.handler, 1, True))
+                    finally:
+                        self.scen.pop("match", None)
+                if set(outs.values()) == {_h(S("seg"))}:
                     return args[0]  # the mapped function is the identity
-                return ("map", args[0], tuple(sorted(outs, key=repr)))
+                if outs == {(): _h(S("seg")), (0,): _h(S("r0")), (1,): _h(S("r1")), (0, 1): _h(S("r0"))}:
+                    return ("map", args[0], "REPLACE-BY-FIRST-MATCHING-PAIR")
+                return ("map", args[0], tuple(sorted(outs.items(), key=repr)))
             return None
-        if last == "find" and len(args) == 2:
-            src = args[0]
-            if src == symrun.EMPTY_VEC:
-                return absint.NONE
-            self.log.append(("find", src, args[1]))
-            if self.scen.get("found"):
-                return absint.some(("tuple", [S("pair.search"), S("pair.replace")]))
-            return absint.NONE
+        if last in ("eq", "ne") and len(args) == 2 and "match" in self.scen and S("seg") in args:
+            other = args[1] if args[0] == S("seg") else args[0]
+            if other in (S("s0"), S("s1")):
+                hit = int(other.name[1]) in self.scen["match"]
+                self.log.append(("cmp-search", other))
+                return hit if last == "eq" else not hit
+            raise absint.Unrecognised("the segment is compared with %r (expected the `search` component of a pair)" % (other,))
+        if sp.endswith("utils::is_rust_identifier") and len(args) == 1:
+            self.log.append(("is_rust_identifier", args[0]))
+            return bool(self.scen.get("valid", True))
         if sp.endswith("Path::from_segments") and len(args) == 1:
             self.log.append(("from_segments", args[0]))
             return ("variant", "Ok", [S("PATH")], 0, ("0",), "core::result::Result") if self.scen.get("valid", True) else \
@@ -407,7 +448,7 @@ class PathRun(symrun.Run):
         if last == "split_last" and len(args) == 1:
             self.log.append(("split_last", args[0]))
             return absint.some(("tuple", [S("LAST"), S("INIT")])) if self.scen.get("nonempty", True) else absint.NONE
-        if last == "is_empty" and len(args) == 1:
+        if last == "is_empty" and len(args) == 1 and not (isinstance(args[0], tuple) and args[0][:1] == ("vec",)):
             self.log.append(("is_empty", args[0]))
             return S("IS_EMPTY")
         if last in ("eq", "ne") and len(args) == 2 and "PartialEq" in (t.get("trait") or sp):
@@ -443,7 +484,7 @@ def constructors(chk, prog, cfg):
         except absint.Unrecognised as e:
             return None, r.log, str(e)
 
-    def judge(fn, args, seq_ok):
+    def judge(fn, args, seq_ok, key=None):
         b = cr.anchor(chk, prog, "ty::path::Path::" + fn)
         if b is None:
             return
@@ -454,34 +495,18 @@ def constructors(chk, prog, cfg):
         v2, log2, err2 = run(fn, args, {"valid": False})
         ok = ok and err2 is not None and "PANIC" in err2
         detail += "; invalid segments: %s" % (err2 or "returns %s (must panic)" % symrun.show(v2))
-        chk.expect(ok, "R18.3", "Path::" + fn, b.where(), detail[:500], cfg)
+        if not ok and fn == "prelude" and not fs:
+            ok, detail = _prelude_direct(prog)
+        chk.expect(ok, "R18.3", key or ("Path::" + fn), b.where(), detail[:500], cfg)
     judge("new", [S("IDENT"), S("MP")], lambda q: q == _h(SEQ))
-    REPL = _h(("map", SEQ, tuple(sorted({_h(S("seg")), _h(S("pair.replace"))}, key=repr))))
-    judge("new_with_replace", [S("IDENT"), S("MP"), S("REPL")], lambda q: q == REPL)
+    # the replacement table is a concrete two-pair list [(s0, r0), (s1, r1)]; the mapped function is run under every pattern of `segment == s_k` outcomes
+    TABLE = ("vec", (("tuple", [S("s0"), S("r0")]), ("tuple", [S("s1"), S("r1")])))
+    REPL = _h(("map", SEQ, "REPLACE-BY-FIRST-MATCHING-PAIR"))
+    judge("new_with_replace", [S("IDENT"), S("MP"), TABLE], lambda q: q == REPL)
+    judge("new_with_replace", [S("IDENT"), S("MP"), symrun.EMPTY_VEC], lambda q: q == _h(SEQ), key="Path::new_with_replace:empty-table")
     judge("prelude", [S("IDENT")], lambda q: q in (_h(("tuple", [S("IDENT")])), _h(("array", [S("IDENT")])), _h(("vec", (S("IDENT"),)))))
-    # the replacement predicate: the pair is found by comparing the segment with its first component, the list searched is the parameter
-    b = cr.anchor(chk, prog, "ty::path::Path::new_with_replace")
-    if b is not None:
-        ps = [p for p in prog.fns if mir.strip_generics(p) == "scale_info::ty::path::Path::new_with_replace"]
-        r = PathRun(prog, {"valid": True})
-        ok = False
-        detail = ""
-        try:
-            r.run(ps[0], [S("IDENT"), S("MP"), S("REPL")])
-            finds = [x for x in r.log if x[0] == "find"]
-            ok = bool(finds) and all(x[1] == S("REPL") for x in finds)
-            preds = {x[2][1] for x in finds if isinstance(x[2], tuple) and x[2][:1] == ("closure",)}
-            detail = "find over %s" % sorted({symrun.show(x[1]) for x in finds})
-            for pc in preds:
-                pr = PathRun(prog, {})
-                clo = [x[2] for x in finds if x[2][1] == pc][0]
-                res = absint.call_closure(prog, clo, [("tuple", [S("cand.search"), S("cand.replace")])], pr.handler, 1, True)
-                eqs = [x for x in pr.log if x[0] == "eq"]
-                ok = ok and res == S("EQ") and len(eqs) == 1 and {eqs[0][1], eqs[0][2]} == {S("seg"), S("cand.search")}
-                detail += "; predicate compares %s" % sorted(symrun.show(y) for y in eqs[0][1:]) if eqs else "; predicate has no comparison"
-        except absint.Unrecognised as e:
-            ok, detail = False, "cannot interpret: %s" % e
-        chk.expect(ok, "R18.3", "Path::new_with_replace:first-matching-search", b.where(), detail[:300], cfg)
+    # (that the pair is found by comparing the segment with the `search` components of the parameter's pairs, first match winning, is what the
+    # four match patterns above decide)
 
 
 def accessors(chk, prog, cfg):
